@@ -296,6 +296,11 @@ def str_method(self, st, s, name, args, kwargs, node):
             return [(st, "val", s.format(*[a.abs_str() if hasattr(a, "abs_str") else a for a in args]))]
         except Exception:       # noqa
             pass
+    if name == "format" and kwargs and "**" not in kwargs and all(_plain(a) for a in args) and all(_plain(v) for v in kwargs.values()):
+        try:
+            return [(st, "val", s.format(*args, **kwargs))]
+        except Exception as e:     # noqa
+            return self.raise_exc(st, type(e).__name__, node, "str", str(e))
     if name in PURE_STR_METHODS and all(_plain(a) for a in args) and not kwargs:
         try:
             r = getattr(s, name)(*args)
@@ -629,8 +634,17 @@ def call_builtin(self, st, name, args, kwargs, node):
             return [(st, "val", False)]
         return [(s, "val", b) for (s, b) in self.truth(st, args[0], node)]
     if name in ("str", "repr", "int", "float", "id", "hash", "abs", "round", "min", "max", "sum", "vars"):
+        if name == "sum" and len(args) == 1 and not isinstance(args[0], Top) and getattr(self, "int_sat", 2) > 2:
+            try:
+                kind, seq = self.iter_values(st, args[0], node)
+            except AnalysisError:
+                kind, seq = None, None
+            if kind == "concrete" and all(isinstance(x, int) and not isinstance(x, bool) for x in seq):
+                return [(st, "val", sum(seq))]
         if name == "str" and args and isinstance(args[0], str):
             return [(st, "val", args[0])]
+        if name == "str" and args and isinstance(args[0], int) and not isinstance(args[0], bool) and getattr(self, "int_sat", 2) > 2:
+            return [(st, "val", str(args[0]))]
         if name == "str" and args and hasattr(args[0], "abs_str"):
             return [(st, "val", args[0].abs_str())]
         if name == "int" and args and isinstance(args[0], (int, str)) and not isinstance(args[0], bool):
